@@ -5,7 +5,10 @@ VARIABLE l
 FrozenFails(o) == (IF o.resolved /\ ~o.digest_matches THEN {"FrozenDigest:" \o o.route} ELSE {})
              \cup (IF o.resolved /\ ~o.in_cache THEN {"FrozenInCache:" \o o.route} ELSE {})
              \cup (IF o.opened_elsewhere = 0 THEN {} ELSE {"FrozenInCache:opened:" \o o.route})
-FailsOf(r) == UNION {IF r.kind = "name" THEN NameFails(r.obs[j]) ELSE FrozenFails(r.obs[j]) : j \in DOMAIN r.obs}
+(* a link planted beside the target (under a name the write path was seen to reuse, or a conventional one) steers nothing outside *)
+StagingFails(o) == (IF o.outside_changed THEN {"Confined:staging:" \o o.route} ELSE {})
+              \cup (IF o.target_is_link THEN {"Confined:target_became_link:" \o o.route} ELSE {})
+FailsOf(r) == UNION {IF r.kind = "name" THEN NameFails(r.obs[j]) ELSE IF r.kind = "staging" THEN StagingFails(r.obs[j]) ELSE FrozenFails(r.obs[j]) : j \in DOMAIN r.obs}
 Judge(r) == LET f == FailsOf(r) IN IF f = {} THEN TRUE ELSE PrintT(ToJson([i |-> r.i, fails |-> f]))
 TInit == l = 1 /\ nm = <<>>
 TNext == l <= Len(Trace) /\ Judge(Trace[l]) /\ l' = l + 1 /\ UNCHANGED nm
